@@ -20,6 +20,7 @@ type Clause struct {
 	File  string
 	Thor  bool // thorough tier only
 	Mode  string // "int": discharge in the integer encoding first
+	Slow  bool   // needs several seconds: gets six times the per-obligation budget
 }
 
 type LoopSpec struct {
@@ -56,6 +57,7 @@ type FuncSpec struct {
 	Trusted  bool // body not verified; contract assumed (listed in evidence)
 	Requires []*Clause
 	Ensures  []*Clause
+	Asserts  []*PointAssert // assert after "<statement text>" [label] expr
 	RetSites []*Clause // "returns": like ensures, but evaluated at each return statement with the locals visible there
 	Loops    map[int]*LoopSpec
 	Lets     map[string]CExpr
@@ -70,6 +72,13 @@ type FuncSpec struct {
 	Line     int
 	NoPanic  bool // ensures: function body has no panic obligations by construction (used for trusted stubs)
 	Skip     []string
+}
+
+// PointAssert: a clause checked right after the statement whose source text
+// (whitespace-normalised) is Stmt; the statement must be unique in the function.
+type PointAssert struct {
+	Stmt   string
+	Clause *Clause
 }
 
 type TypeInv struct {
@@ -90,7 +99,7 @@ var labelRe = regexp.MustCompile(`^\[([A-Za-z0-9_.\-,]+)\]\s*`)
 var pureRe = regexp.MustCompile(`^pure\s+([A-Za-z_][A-Za-z0-9_]*)\s*\(([^)]*)\)\s*([^=]*?)\s*=\s*(.*)$`)
 
 var clauseKeywords = map[string]bool{"requires": true, "ensures": true, "loop": true, "mode": true, "inline": true,
-	"modular": true, "modifies": true, "decreases": true, "let": true, "end": true, "func": true, "returns": true, "stackbound": true, "pure": true,
+	"modular": true, "modifies": true, "decreases": true, "let": true, "end": true, "func": true, "returns": true, "stackbound": true, "assert": true, "pure": true,
 	"type": true, "props": true, "bounded": true, "trusted": true, "purefn": true, "package": true, "skip": true}
 
 // extractSpecLines pulls the //@ lines out of a Go file (or takes every
@@ -152,6 +161,10 @@ func (sp *Specs) parseFile(path string, data []byte, pkgPath string) error {
 		if strings.HasPrefix(src, "thorough ") {
 			c.Thor = true
 			src = strings.TrimSpace(strings.TrimPrefix(src, "thorough "))
+		}
+		if strings.HasPrefix(src, "slow: ") {
+			c.Slow = true
+			src = strings.TrimSpace(strings.TrimPrefix(src, "slow: "))
 		}
 		if strings.HasPrefix(src, "int: ") {
 			c.Mode = "int"
@@ -277,6 +290,26 @@ func (sp *Specs) parseFile(path string, data []byte, pkgPath string) error {
 				n := strings.TrimSpace(parts[0])
 				cur.Lets[n] = e
 				cur.LetOrder = append(cur.LetOrder, n)
+			case "assert":
+				// assert after "stmt text" [label] expr
+				r := strings.TrimSpace(rest)
+				if !strings.HasPrefix(r, "after ") {
+					return fmt.Errorf("%s:%d: assert needs: after \"<statement>\" expr", path, line)
+				}
+				r = strings.TrimSpace(strings.TrimPrefix(r, "after "))
+				if !strings.HasPrefix(r, "\"") {
+					return fmt.Errorf("%s:%d: assert: quoted statement text expected", path, line)
+				}
+				end := strings.Index(r[1:], "\" ")
+				if end < 0 {
+					return fmt.Errorf("%s:%d: assert: unterminated statement text", path, line)
+				}
+				stmt := r[1 : 1+end]
+				c, err := mkClause(strings.TrimSpace(r[end+2:]), line)
+				if err != nil {
+					return err
+				}
+				cur.Asserts = append(cur.Asserts, &PointAssert{Stmt: strings.Join(strings.Fields(stmt), " "), Clause: c})
 			case "stackbound":
 				n, err := strconv.Atoi(strings.TrimSpace(rest))
 				if err != nil {
